@@ -34,6 +34,27 @@ CHECKS = {
          "skeletons with line-feed deviations at a width beyond any line x units 1..8 (all pairs via the smallest unit) and all widths x units 3,5,7", "exempt lines computed from the output's own tree", "5/C12"),
  "C13": ("E1 sweep", "bounded exhaustive enumeration: every (start,end) pair on character boundaries of every model source, splice oracle",
          "every model source (and single-character damages) x every range incl. ranges past the end x 2-3 configurations: no panic, node range, coverage, splice re-parses and keeps N", "reduced model (spine depth <=1 quick)", "5/C13"),
+ "C02": ("E1 sweep + E6 compiler world", "bounded exhaustive enumeration of a program sub-model, compile-and-render oracle (real Typst compiler)",
+         "every well-formed program of the source model behind a fixed two-line prelude (virtual module binds all atoms) x all widths; input and each distinct output are compiled and rendered in an in-memory world: same pages, same pixels, same info, or same diagnostics",
+         "self-contained programs only; embedded fonts; 2 px/pt; bounds as C01 (smaller)", "5/C02"),
+ "C05": ("E5 subprocess sweep", "exhaustive enumeration of all strings up to a length bound over structural alphabets + damages + nesting ladders, in isolated worker processes",
+         "all strings over 36 structural characters (<=4 quick / <=5 thorough), all token strings over 28 tokens, every single-character damage of every canonical model instance, Unicode blanks in structural contexts x 24 extreme configurations; 16 nesting ladders up to the parser's own limit; abort/hang detected by the parent process, culprit isolated by bisection",
+         "8 MiB stack per worker thread; tab_spaces/max_width at their ends and representative points", "5/C05"),
+ "C14": ("E2 stateright CLI exploration", "explicit-state BFS (stateright) over abstract file trees, every transition executes the real CLI binary, reference model oracle",
+         "all trees with <=2 (thorough 3) entries over all file kinds (+1 entry over plain kinds) x every --check invocation shape (ordered file lists <=3 incl. missing path / directory-as-file / symlinks, stdin, format-all with 9 directory spellings, check before/after the subcommand) x style options: files and mtimes untouched, no formatted text on stdout, exit status per the statement",
+         "runs as root: invalid UTF-8, missing paths, directories and dangling links stand in for unreadable files", "6/C14"),
+ "C15": ("E2 stateright CLI exploration", "explicit-state BFS (stateright) over abstract file trees, every transition executes the real CLI binary, reference model oracle",
+         "same state space as C14 with -i and format-all (writing) actions, BFS to depth 2 (thorough 4) so that second runs and mixed sequences are transitions from non-initial states: written iff eligible/readable/well-formed/different, exact bytes, others untouched incl. mtime, error isolation, exit status",
+         "as C14", "6/C15"),
+ "C16": ("E2 batch", "exhaustive enumeration of the option space (every column 0..400, every tab-width 0..16, reorder) x corpus x every front-end against the in-process library",
+         "corpus of ~70 files x 870 (quick) / 13 634 (thorough) configurations x {stdout multi-file, stdin, -i, format-all, format_with_width}: byte equality with Typstyle::new(cfg).format_content",
+         "library reference linked from the same working tree", "6/C16"),
+ "C17": ("E3 baton scheduler + history BFS", "controlled-scheduler exploration of real OS threads at hook points (all schedules up to a preemption bound, CHESS style) + exhaustive call histories in fresh processes",
+         "17-call colliding alphabet; every call alone in 3 fresh processes; every history of <=3 calls x 3 thread-assignment modes in a fresh process; DFS over all interleavings of 2-3 real threads at the --cfg typstyle_verif hook points within preemption bound 2 (thorough 3); oracle: result of the same call alone in a fresh process",
+         "interleaving at hook granularity; no weak-memory modelling; replay determinism checked before exploring", "6/C17"),
+ "C18": ("E4 cost explorer", "exhaustive enumeration of cyclic nesting paths over a recursive-construct alphabet, unrolled to a depth ladder; conversion counters from hooks",
+         "all sort-compatible cyclic paths of length <=2 (thorough 3) over 81 recursive constructs (every layout with a fallback in both answers of its predicate) x depths 4..64 (256) x 2 positions x 3 innermost variants x 5 widths: every node converted <= 8 times, total <= 8 x nodes; 20 s hang watchdog",
+         "counter sees the conversion entry points; the renderer only through the watchdog", "6/C18"),
  "C19": ("E1 sweep", "bounded exhaustive enumeration of import statements, permutation/guard/differential oracle",
          "all import statements over the item alphabet (sequences <=3/4) x shapes x contexts x trivia x reorder off/on x all widths", "bounds: item alphabet, sequence length", "5/C19"),
 }
@@ -47,13 +68,14 @@ def main():
             "thorough_cmd": f"./check {cid} thorough",
             "evidence_file": f"/verif/evidence/{cid}.json",
             "replay_cmd_template": "./check replay {path}",
-            "engine": engine,
+            "engine": engine.split(" + ")[0],
             "level_claimed": {"category": "model_checking", "text": text, "design_ref": f"DESIGN.md section {ref}"},
             "level_note": note,
             "technique": technique,
         })
     all_ids = [f"C{i:02d}" for i in range(1, 20)]
     na = [{"property_id": c, "reason": "check not built yet (work in progress); see DESIGN.md"} for c in all_ids if c not in CHECKS]
+    assert not na, na
     m = {
         "version": 1,
         "setup_cmd": "./setup.sh",
@@ -65,8 +87,18 @@ def main():
             "add_only": True,
         },
         "engines": [
-            {"name": "E1 sweep", "path": "/verif/harness/tyv-model/src/sweep.rs", "serves_properties": sorted(CHECKS.keys()),
-             "kind_free_text": "hand-rolled parallel exhaustive enumerator over the bounded Typst source model; every case is an execution of the real typstyle-core"},
+            {"name": "E1 sweep", "path": "/verif/harness/tyv-model/src/sweep.rs", "serves_properties": [c for c in sorted(CHECKS) if CHECKS[c][0].startswith("E1")],
+             "kind_free_text": "hand-rolled parallel exhaustive enumerator over the bounded Typst source model (contexts x production spines x trivia deviations at parser-visible gaps x all widths); every case is an execution of the real typstyle-core"},
+            {"name": "E2 stateright CLI exploration", "path": "/verif/harness/tyv-run/src/cli.rs", "serves_properties": ["C14", "C15", "C16"],
+             "kind_free_text": "stateright 0.31 BFS over abstract file trees; next_state materialises the tree, runs the real typstyle binary and compares with a reference model"},
+            {"name": "E3 baton scheduler", "path": "/verif/harness/tyv-run/src/c17.rs", "serves_properties": ["C17"],
+             "kind_free_text": "deterministic scheduler over real OS threads at cfg-guarded hook points; DFS over schedules with iterative preemption bounding; histories in fresh processes"},
+            {"name": "E4 cost explorer", "path": "/verif/harness/tyv-run/src/c18.rs", "serves_properties": ["C18"],
+             "kind_free_text": "nesting-path enumerator reading per-node conversion counters from the hooks"},
+            {"name": "E5 subprocess sweep", "path": "/verif/harness/tyv-run/src/c05.rs", "serves_properties": ["C05"],
+             "kind_free_text": "exhaustive string families in worker processes; parent detects abort/hang and bisects to the culprit"},
+            {"name": "E6 compiler world", "path": "/verif/harness/tyv-world/src/lib.rs", "serves_properties": ["C02"],
+             "kind_free_text": "minimal in-memory typst::World (typst 0.13.1, embedded fonts): compile + render + hash"},
         ],
         "checks": checks,
         "not_applicable": na,
